@@ -3,7 +3,7 @@
 
   value token:  i<decimal int64>   |   f<16 hex digits of the IEEE bit pattern>
 
-    shapes                         -> tail=<raw|canon> core=<raw|mod>        (regenerated from the Go source)
+                            -> tail=<raw|canon> core=<raw|mod>        (regenerated from the Go source)
     canon <v>                      -> 1 | 0
     f2v <hex>                      -> <v>                                    floatToValue
     i2v <dec>                      -> <v> c=<0|1> s=<v>                      intToValue; s = canonical spec value
@@ -15,13 +15,10 @@
 -/
 import GojaModel.Base.Proto
 import GojaModel.C05.Model
-import GojaModel.Generated.C05_Shapes
+import GojaModel.C05.StrNum
 
 namespace GojaModel.C05.Driver
 open GojaModel GojaModel.Num GojaModel.C05 GojaModel.Proto
-
-def shapes : Shapes :=
-  ⟨GojaModel.Generated.C05_Shapes.tail, GojaModel.Generated.C05_Shapes.core, GojaModel.Generated.C05_Shapes.mulz⟩
 
 def showVal : Num → String
   | int i => "i" ++ toString i
@@ -46,12 +43,12 @@ def specVal (x : F64) : Num := floatToValue x
 def conv (name : String) (a : Num) : Option (String × String) :=
   let x := a.toF64
   match name with
-  | "int8" => some (toString (toIntS shapes.core 8 a), toString (specToIntS 8 x))
-  | "uint8" => some (toString (toIntU shapes.core 8 a), toString (specToIntU 8 x))
-  | "int16" => some (toString (toIntS shapes.core 16 a), toString (specToIntS 16 x))
-  | "uint16" => some (toString (toIntU shapes.core 16 a), toString (specToIntU 16 x))
-  | "int32" => some (toString (toIntS shapes.core 32 a), toString (specToIntS 32 x))
-  | "uint32" => some (toString (toIntU shapes.core 32 a), toString (specToIntU 32 x))
+  | "int8" => some (toString (toIntS 8 a), toString (specToIntS 8 x))
+  | "uint8" => some (toString (toIntU 8 a), toString (specToIntU 8 x))
+  | "int16" => some (toString (toIntS 16 a), toString (specToIntS 16 x))
+  | "uint16" => some (toString (toIntU 16 a), toString (specToIntU 16 x))
+  | "int32" => some (toString (toIntS 32 a), toString (specToIntS 32 x))
+  | "uint32" => some (toString (toIntU 32 a), toString (specToIntU 32 x))
   | "clamp8" => some (toString (toUint8Clamp a), toString (specToUint8Clamp x))
   | "length" => some (toString (toLength a), toString (specToLength x))
   | "index" => some (showOpt (toIndex a), showOpt (specToIndex x))
@@ -63,36 +60,59 @@ def binop (name : String) (a b : Num) (r : F64) : Option (Num × Num) :=
   let x := a.toF64
   let y := b.toF64
   match name with
-  | "add" => some (opAdd shapes a b r, specVal r)
-  | "sub" => some (opSub shapes a b r, specVal r)
-  | "mul" => some (opMul shapes a b r, specVal r)
-  | "div" => some (opDiv shapes a b r, specVal r)
-  | "mod" => some (opMod shapes a b r, specVal r)
-  | "and" => some (opAnd shapes a b, int (specAnd x y))
-  | "or" => some (opOr shapes a b, int (specOr x y))
-  | "xor" => some (opXor shapes a b, int (specXor x y))
-  | "shl" => some (opShl shapes a b, int (specShl x y))
-  | "sar" => some (opSar shapes a b, int (specSar x y))
-  | "shr" => some (opShr shapes a b, int (specShr x y))
+  | "add" => some (opAdd a b r, specVal r)
+  | "sub" => some (opSub a b r, specVal r)
+  | "mul" => some (opMul a b r, specVal r)
+  | "div" => some (opDiv a b r, specVal r)
+  | "mod" => some (opMod a b r, specVal r)
+  | "and" => some (opAnd a b, int (specAnd x y))
+  | "or" => some (opOr a b, int (specOr x y))
+  | "xor" => some (opXor a b, int (specXor x y))
+  | "shl" => some (opShl a b, int (specShl x y))
+  | "sar" => some (opSar a b, int (specSar x y))
+  | "shr" => some (opShr a b, int (specShr x y))
   | _ => none
 
 def unop (name : String) (a : Num) (r : F64) : Option (Num × Num) :=
   match name with
-  | "neg" => some (opNeg shapes a r, specVal r)
-  | "inc" => some (opInc shapes a r, specVal r)
-  | "dec" => some (opDec shapes a r, specVal r)
-  | "bnot" => some (opBnot shapes a, int (specBnot a.toF64))
+  | "neg" => some (opNeg a r, specVal r)
+  | "inc" => some (opInc a r, specVal r)
+  | "dec" => some (opDec a r, specVal r)
+  | "bnot" => some (opBnot a, int (specBnot a.toF64))
   | _ => none
 
 def showRes (p : Num × Num) : String :=
   showVal p.1 ++ " c=" ++ bit (decide (Canon p.1)) ++ " s=" ++ showVal p.2
 
+def showRes' : StrNum.Res → String
+  | .nan => "nan"
+  | .inf neg => if neg then "inf-" else "inf+"
+  | .num neg m e => "num:" ++ (if neg then "-" else "+") ++ toString m ++ "e" ++ toString e
+
+def parseUnits? (s : String) : Option (List Nat) :=
+  if s == "-" then some [] else
+  let cs := s.toList
+  if cs.length % 4 ≠ 0 then none else
+  let rec go (cs : List Char) (fuel : Nat) (acc : List Nat) : Option (List Nat) :=
+    match fuel with
+    | 0 => some acc.reverse
+    | fuel + 1 =>
+      match cs with
+      | a :: b :: c :: d :: rest =>
+          (match parseHex? (String.ofList [a, b, c, d]) with
+           | some n => go rest fuel (n :: acc)
+           | none => none)
+      | [] => some acc.reverse
+      | _ => none
+  go cs (cs.length / 4 + 1) []
+
 def step (line : String) : String :=
   match words line with
-  | ["shapes"] =>
-      "tail=" ++ (match shapes.tail with | .raw => "raw" | .canon => "canon") ++
-      " core=" ++ (match shapes.core with | .raw => "raw" | .mod => "mod") ++
-      " mulz=" ++ (match shapes.mulz with | .minusOne => "minusOne" | .anyNeg => "anyNeg")
+  | ["str", u] => match parseUnits? u with
+      | some cps =>
+          let m := StrNum.mech cps
+          showRes' m ++ " " ++ showRes' (StrNum.spec cps) ++ " " ++ toHexW 16 m.toF64.toBits
+      | none => "bad"
   | ["canon", v] => match parseVal? v with
       | some a => bit (decide (Canon a))
       | none => "bad"
@@ -100,7 +120,7 @@ def step (line : String) : String :=
       | some f => showVal (floatToValue f)
       | none => "bad"
   | ["i2v", d] => match d.toInt? with
-      | some i => showRes (intToValue shapes.tail i, specVal (F64.ofInt i))
+      | some i => showRes (intToValue i, specVal (F64.ofInt i))
       | none => "bad"
   | ["f2i", h] => match parseF? h with
       | some f => (match floatToInt f with | some i => "ok " ++ toString i | none => "no")
